@@ -36,14 +36,35 @@ pub const REQ_KINDS: &[&str] = &[
 
 #[derive(Clone, Debug, PartialEq)]
 pub enum Ev {
-    Open { file: String, text: String },
-    Change { file: String, text: String },
+    Open {
+        file: String,
+        text: String,
+    },
+    Change {
+        file: String,
+        text: String,
+    },
     /// one didChange notification carrying 0, 2 or 3 content changes (full texts); the last one counts
-    ChangeN { file: String, texts: Vec<String> },
-    Close { file: String },
+    ChangeN {
+        file: String,
+        texts: Vec<String>,
+    },
+    Close {
+        file: String,
+    },
     /// disk state change, only generated immediately before a buffer event
-    Disk { file: String, state: DiskState },
-    Req { kind: String, file: String, line: u32, col: u32, extra: String, pos_kind: String },
+    Disk {
+        file: String,
+        state: DiskState,
+    },
+    Req {
+        kind: String,
+        file: String,
+        line: u32,
+        col: u32,
+        extra: String,
+        pos_kind: String,
+    },
 }
 
 #[derive(Clone, Debug, PartialEq)]
@@ -89,8 +110,17 @@ impl Ev {
             Ev::Change { file, text } => json!({"op": "change", "file": file, "text": text}),
             Ev::ChangeN { file, texts } => json!({"op": "change_n", "file": file, "texts": texts}),
             Ev::Close { file } => json!({"op": "close", "file": file}),
-            Ev::Disk { file, state } => json!({"op": "disk", "file": file, "state": state.to_json()}),
-            Ev::Req { kind, file, line, col, extra, pos_kind } => {
+            Ev::Disk { file, state } => {
+                json!({"op": "disk", "file": file, "state": state.to_json()})
+            }
+            Ev::Req {
+                kind,
+                file,
+                line,
+                col,
+                extra,
+                pos_kind,
+            } => {
                 json!({"op": "req", "kind": kind, "file": file, "line": line, "col": col, "extra": extra, "pos_kind": pos_kind})
             }
         }
@@ -98,14 +128,28 @@ impl Ev {
     fn from_json(v: &Value) -> Option<Ev> {
         let s = |k: &str| v.get(k).and_then(|x| x.as_str()).map(|x| x.to_string());
         match v.get("op")?.as_str()? {
-            "open" => Some(Ev::Open { file: s("file")?, text: s("text")? }),
-            "change" => Some(Ev::Change { file: s("file")?, text: s("text")? }),
+            "open" => Some(Ev::Open {
+                file: s("file")?,
+                text: s("text")?,
+            }),
+            "change" => Some(Ev::Change {
+                file: s("file")?,
+                text: s("text")?,
+            }),
             "change_n" => Some(Ev::ChangeN {
                 file: s("file")?,
-                texts: v.get("texts")?.as_array()?.iter().map(|t| t.as_str().map(|x| x.to_string())).collect::<Option<Vec<_>>>()?,
+                texts: v
+                    .get("texts")?
+                    .as_array()?
+                    .iter()
+                    .map(|t| t.as_str().map(|x| x.to_string()))
+                    .collect::<Option<Vec<_>>>()?,
             }),
             "close" => Some(Ev::Close { file: s("file")? }),
-            "disk" => Some(Ev::Disk { file: s("file")?, state: DiskState::from_json(v.get("state")?)? }),
+            "disk" => Some(Ev::Disk {
+                file: s("file")?,
+                state: DiskState::from_json(v.get("state")?)?,
+            }),
             "req" => Some(Ev::Req {
                 kind: s("kind")?,
                 file: s("file")?,
@@ -140,8 +184,11 @@ pub struct History {
 
 impl History {
     fn to_json(&self) -> Value {
-        let disk: serde_json::Map<String, Value> =
-            self.disk.iter().map(|(k, v)| (k.clone(), v.to_json())).collect();
+        let disk: serde_json::Map<String, Value> = self
+            .disk
+            .iter()
+            .map(|(k, v)| (k.clone(), v.to_json()))
+            .collect();
         json!({
             "engine": "lspsim",
             "entropy_seed": format!("{:#x}", self.entropy_seed),
@@ -156,10 +203,21 @@ impl History {
             disk.insert(k.clone(), DiskState::from_json(s)?);
         }
         Some(History {
-            entropy_seed: v.get("entropy_seed").and_then(|s| s.as_str()).and_then(parse_u64)?,
+            entropy_seed: v
+                .get("entropy_seed")
+                .and_then(|s| s.as_str())
+                .and_then(parse_u64)?,
             disk,
-            toml: v.get("toml").and_then(|t| t.as_str()).map(|s| s.to_string()),
-            events: v.get("events")?.as_array()?.iter().map(Ev::from_json).collect::<Option<Vec<_>>>()?,
+            toml: v
+                .get("toml")
+                .and_then(|t| t.as_str())
+                .map(|s| s.to_string()),
+            events: v
+                .get("events")?
+                .as_array()?
+                .iter()
+                .map(Ev::from_json)
+                .collect::<Option<Vec<_>>>()?,
         })
     }
 }
@@ -179,7 +237,9 @@ fn uri(file: &str) -> String {
     if file.starts_with("untitled:") {
         return file.to_string();
     }
-    lsp_types::Url::from_file_path(abs(file)).unwrap().to_string()
+    lsp_types::Url::from_file_path(abs(file))
+        .unwrap()
+        .to_string()
 }
 
 fn apply_disk_state(d: &mut SimDisk, file: &str, st: &DiskState) {
@@ -190,9 +250,16 @@ fn apply_disk_state(d: &mut SimDisk, file: &str, st: &DiskState) {
         DiskState::Missing => d.remove_file(&p),
         DiskState::Unreadable => {
             d.add_file(&p, b"unreadable".to_vec());
-            d.faults.push(Fault { path: p, nth: 0, op: Op::Read, kind: FaultKind::PermissionDenied });
+            d.faults.push(Fault {
+                path: p,
+                nth: 0,
+                op: Op::Read,
+                kind: FaultKind::PermissionDenied,
+            });
         }
-        DiskState::InvalidUtf8 => d.add_file(&p, vec![b'l', b'd', b'a', b' ', 0xff, 0xfe, b'\n', 0xc3]),
+        DiskState::InvalidUtf8 => {
+            d.add_file(&p, vec![b'l', b'd', b'a', b' ', 0xff, 0xfe, b'\n', 0xc3])
+        }
     }
 }
 
@@ -219,8 +286,14 @@ fn crash_from_panic(prefix: &str) -> Crash {
     let p = panics::peek();
     let last = p.last();
     Crash {
-        what: format!("{}: {}", prefix, last.map(|p| p.message.clone()).unwrap_or_default()),
-        location: last.map(|p| p.location.clone()).unwrap_or_else(|| "<unknown>".into()),
+        what: format!(
+            "{}: {}",
+            prefix,
+            last.map(|p| p.message.clone()).unwrap_or_default()
+        ),
+        location: last
+            .map(|p| p.location.clone())
+            .unwrap_or_else(|| "<unknown>".into()),
     }
 }
 
@@ -249,12 +322,16 @@ impl Node {
     fn deliver(&mut self, msg: Message) -> Result<Vec<Message>, Crash> {
         disk::with(|d| d.reset_read_clock());
         let server = &mut self.server;
-        let r = std::panic::catch_unwind(std::panic::AssertUnwindSafe(|| server.handle_message(msg)));
+        let r =
+            std::panic::catch_unwind(std::panic::AssertUnwindSafe(|| server.handle_message(msg)));
         match r {
             Err(_) => return Err(crash_from_panic("handler panicked")),
             Ok(Err(e)) => {
                 return Err(Crash {
-                    what: format!("handle_message returned Err (the main loop would exit): {}", e),
+                    what: format!(
+                        "handle_message returned Err (the main loop would exit): {}",
+                        e
+                    ),
                     location: "handle_message".into(),
                 })
             }
@@ -264,7 +341,12 @@ impl Node {
         while let Ok(m) = self.client.receiver.try_recv() {
             if let Message::Notification(n) = &m {
                 if n.method == "textDocument/publishDiagnostics" {
-                    let u = n.params.get("uri").and_then(|u| u.as_str()).unwrap_or("").to_string();
+                    let u = n
+                        .params
+                        .get("uri")
+                        .and_then(|u| u.as_str())
+                        .unwrap_or("")
+                        .to_string();
                     let mut d: Vec<Value> = n
                         .params
                         .get("diagnostics")
@@ -282,7 +364,10 @@ impl Node {
     }
 
     fn notify(&mut self, method: &str, params: Value) -> Result<Vec<Message>, Crash> {
-        self.deliver(Message::Notification(Notification { method: method.into(), params }))
+        self.deliver(Message::Notification(Notification {
+            method: method.into(),
+            params,
+        }))
     }
 
     /// Send a request; returns the response's `result` (or an error object).
@@ -302,7 +387,10 @@ impl Node {
             })
             .collect();
         if responses.len() != 1 {
-            return Ok(Err(format!("{} responses for one request", responses.len())));
+            return Ok(Err(format!(
+                "{} responses for one request",
+                responses.len()
+            )));
         }
         let r = responses[0];
         if r.id != RequestId::from(id) {
@@ -337,7 +425,11 @@ struct Versions {
 
 impl Versions {
     fn new(entropy_seed: u64) -> Versions {
-        Versions { policy: rng::derive(entropy_seed, "lsp.versions", 0) % 3, global: 0, per_file: BTreeMap::new() }
+        Versions {
+            policy: rng::derive(entropy_seed, "lsp.versions", 0) % 3,
+            global: 0,
+            per_file: BTreeMap::new(),
+        }
     }
     fn open(&mut self, file: &str) -> i64 {
         match self.policy {
@@ -378,7 +470,9 @@ fn req_params(kind: &str, file: &str, line: u32, col: u32, extra: &str) -> Value
     let td = json!({"uri": uri(file)});
     let pos = json!({"line": line, "character": col});
     match kind {
-        "textDocument/semanticTokens/full" | "textDocument/codeLens" | "textDocument/documentSymbol" => {
+        "textDocument/semanticTokens/full"
+        | "textDocument/codeLens"
+        | "textDocument/documentSymbol" => {
             json!({"textDocument": td})
         }
         "textDocument/formatting" => {
@@ -440,7 +534,12 @@ fn as_range(v: &Value) -> Option<(u64, u64, u64, u64)> {
     ))
 }
 
-fn collect_ranges(v: &Value, ctx: Option<&str>, req_uri: Option<&str>, out: &mut Vec<(Option<String>, (u64, u64, u64, u64), String)>) {
+fn collect_ranges(
+    v: &Value,
+    ctx: Option<&str>,
+    req_uri: Option<&str>,
+    out: &mut Vec<(Option<String>, (u64, u64, u64, u64), String)>,
+) {
     match v {
         Value::Array(a) => a.iter().for_each(|x| collect_ranges(x, ctx, req_uri, out)),
         Value::Object(o) => {
@@ -448,7 +547,10 @@ fn collect_ranges(v: &Value, ctx: Option<&str>, req_uri: Option<&str>, out: &mut
             if let Some(u) = o.get("uri").and_then(|u| u.as_str()) {
                 ctx = Some(u.to_string());
             }
-            let target = o.get("targetUri").and_then(|u| u.as_str()).map(|s| s.to_string());
+            let target = o
+                .get("targetUri")
+                .and_then(|u| u.as_str())
+                .map(|s| s.to_string());
             for (k, x) in o {
                 if k == "changes" {
                     if let Some(m) = x.as_object() {
@@ -518,22 +620,38 @@ fn check_tokens(text: &str, data: &Value) -> Result<usize, String> {
             start += ds;
         }
         if len == 0 {
-            return Err(format!("token {} has zero length (line {}, col {})", i, line, start));
+            return Err(format!(
+                "token {} has zero length (line {}, col {})",
+                i, line, start
+            ));
         }
         if let Some((pl, pe)) = prev_end {
             if pl == line && start < pe {
-                return Err(format!("token {} overlaps its predecessor (line {}, col {} < {})", i, line, start, pe));
+                return Err(format!(
+                    "token {} overlaps its predecessor (line {}, col {} < {})",
+                    i, line, start, pe
+                ));
             }
         }
         if i > 0 && dl == 0 && ds == 0 {
             return Err(format!("token {} not strictly after its predecessor", i));
         }
         if line as usize >= lines.len() {
-            return Err(format!("token {} on line {} >= line count {}", i, line, lines.len()));
+            return Err(format!(
+                "token {} on line {} >= line count {}",
+                i,
+                line,
+                lines.len()
+            ));
         }
         let ll = lines[line as usize].len() as u64;
         if start + len > ll {
-            return Err(format!("token {} ends at {} > line length {}", i, start + len, ll));
+            return Err(format!(
+                "token {} ends at {} > line length {}",
+                i,
+                start + len,
+                ll
+            ));
         }
         prev_end = Some((line, start + len));
     }
@@ -588,9 +706,13 @@ impl World {
         if let Some(t) = self.buffers.get(file) {
             return Some(t.clone());
         }
-        disk::with(|d| d.files.get(&mos_simrt::disk::normalize(&abs(file))).cloned())
-            .flatten()
-            .and_then(|b| String::from_utf8(b).ok())
+        disk::with(|d| {
+            d.files
+                .get(&mos_simrt::disk::normalize(&abs(file)))
+                .cloned()
+        })
+        .flatten()
+        .and_then(|b| String::from_utf8(b).ok())
     }
     fn text_of_uri(&self, u: &str) -> Option<String> {
         if u.starts_with("untitled:") {
@@ -598,7 +720,10 @@ impl World {
             return self.buffers.get(u).cloned();
         }
         let p = lsp_types::Url::parse(u).ok()?.to_file_path().ok()?;
-        let rel = p.strip_prefix(WS).ok().map(|r| r.to_string_lossy().to_string());
+        let rel = p
+            .strip_prefix(WS)
+            .ok()
+            .map(|r| r.to_string_lossy().to_string());
         match rel {
             Some(r) => self.text_of(&r),
             None => self.text_of(&p.to_string_lossy()),
@@ -618,7 +743,11 @@ fn fresh_node(world: &World, stats: &mut RunStats) -> Result<Node, Crash> {
 }
 
 fn diag_diff(long: &Node, fresh: &Node) -> Option<(String, String)> {
-    let uris: BTreeSet<&String> = long.published.keys().chain(fresh.published.keys()).collect();
+    let uris: BTreeSet<&String> = long
+        .published
+        .keys()
+        .chain(fresh.published.keys())
+        .collect();
     let empty: Vec<Value> = vec![];
     for u in uris {
         let a = long.published.get(u).unwrap_or(&empty);
@@ -675,16 +804,30 @@ fn crash_found(c: &Crash, who: &str, method: &str, at: usize) -> Found {
     if c.what.contains(mos_simrt::disk::READ_BUDGET_MARKER) {
         return Found {
             class: "nonterminating_file_loop".into(),
-            sig: format!("nonterminating:file_reads:{}:{}", who, method.rsplit('/').next().unwrap_or(method)),
-            message: format!("{} server, {}: does not terminate, it keeps reading files ({})", who, method, c.what),
+            sig: format!(
+                "nonterminating:file_reads:{}:{}",
+                who,
+                method.rsplit('/').next().unwrap_or(method)
+            ),
+            message: format!(
+                "{} server, {}: does not terminate, it keeps reading files ({})",
+                who, method, c.what
+            ),
             at_event: at,
         };
     }
     if c.what.contains(super::passwatch::WORK_BUDGET_MARKER) {
         return Found {
             class: "nonterminating_expansion".into(),
-            sig: format!("nonterminating:expansion:{}:{}", who, method.rsplit('/').next().unwrap_or(method)),
-            message: format!("{} server, {}: does not terminate in any useful sense ({})", who, method, c.what),
+            sig: format!(
+                "nonterminating:expansion:{}:{}",
+                who,
+                method.rsplit('/').next().unwrap_or(method)
+            ),
+            message: format!(
+                "{} server, {}: does not terminate in any useful sense ({})",
+                who, method, c.what
+            ),
             at_event: at,
         };
     }
@@ -710,7 +853,10 @@ fn nonterm_found(verdict: &str, who: &str, method: &str, at: usize) -> Found {
 }
 
 fn execute_inner(h: &History, seed_checks: usize, stats: &mut RunStats) -> Option<Found> {
-    let mut world = World { open_order: vec![], buffers: BTreeMap::new() };
+    let mut world = World {
+        open_order: vec![],
+        buffers: BTreeMap::new(),
+    };
     let mut long = match Node::new() {
         Ok(n) => n,
         Err(c) => return Some(crash_found(&c, "long_lived", "startup", 0)),
@@ -733,7 +879,9 @@ fn execute_inner(h: &History, seed_checks: usize, stats: &mut RunStats) -> Optio
             Ev::Disk { file, state } => {
                 disk::with(|d| apply_disk_state(d, file, state));
                 *stats.faults.entry(state.name().to_string()).or_insert(0) += 1;
-                stats.log.push(format!("#{} disk {} {}", i, file, state.name()));
+                stats
+                    .log
+                    .push(format!("#{} disk {} {}", i, file, state.name()));
                 continue;
             }
             Ev::Open { file, text } => {
@@ -757,7 +905,8 @@ fn execute_inner(h: &History, seed_checks: usize, stats: &mut RunStats) -> Optio
                 world.buffers.insert(file.clone(), text.clone());
                 {
                     let v = versions.change(file);
-                    long.notify(&method, did_change(file, text, v)).map(|_| None)
+                    long.notify(&method, did_change(file, text, v))
+                        .map(|_| None)
                 }
             }
             Ev::ChangeN { file, texts } => {
@@ -770,7 +919,8 @@ fn execute_inner(h: &History, seed_checks: usize, stats: &mut RunStats) -> Optio
                     world.buffers.insert(file.clone(), last.clone());
                 }
                 let v = versions.change(file);
-                long.notify(&method, did_change_n(file, texts, v)).map(|_| None)
+                long.notify(&method, did_change_n(file, texts, v))
+                    .map(|_| None)
             }
             Ev::Close { file } => {
                 method = "textDocument/didClose".into();
@@ -779,7 +929,14 @@ fn execute_inner(h: &History, seed_checks: usize, stats: &mut RunStats) -> Optio
                 world.buffers.remove(file);
                 long.notify(&method, did_close(file)).map(|_| None)
             }
-            Ev::Req { kind, file, line, col, extra, pos_kind } => {
+            Ev::Req {
+                kind,
+                file,
+                line,
+                col,
+                extra,
+                pos_kind,
+            } => {
                 method = kind.clone();
                 stats.requests += 1;
                 *stats.pos_kinds.entry(pos_kind.clone()).or_insert(0) += 1;
@@ -812,7 +969,12 @@ fn execute_inner(h: &History, seed_checks: usize, stats: &mut RunStats) -> Optio
             last_digest = dg;
         }
         trace = rng::fnv64_extend(trace, &dg.to_le_bytes());
-        stats.log.push(format!("#{} {} published={:?}", i, ev.kind_name(), &long.publish_log[publish_mark..]));
+        stats.log.push(format!(
+            "#{} {} published={:?}",
+            i,
+            ev.kind_name(),
+            &long.publish_log[publish_mark..]
+        ));
 
         // survival: exactly one response with the right id
         let long_answer = match &answer {
@@ -840,11 +1002,19 @@ fn execute_inner(h: &History, seed_checks: usize, stats: &mut RunStats) -> Optio
         // With no buffer open the reference has had no occasion to publish anything (the server only
         // publishes in reaction to buffer events), so "last published" is only compared when at least
         // one document is open; request answers are compared in every state.
-        let diag = if world.open_order.is_empty() { None } else { diag_diff(&long, &fresh) };
+        let diag = if world.open_order.is_empty() {
+            None
+        } else {
+            diag_diff(&long, &fresh)
+        };
         if let Some((kind, msg)) = diag {
             return Some(Found {
                 class: "history_dependent_diagnostics".into(),
-                sig: format!("diag_mismatch:{}:after_{}", kind, method.rsplit('/').next().unwrap_or("")),
+                sig: format!(
+                    "diag_mismatch:{}:after_{}",
+                    kind,
+                    method.rsplit('/').next().unwrap_or("")
+                ),
                 message: format!("after event {} ({}): {}", i, ev.kind_name(), msg),
                 at_event: i,
             });
@@ -863,8 +1033,14 @@ fn execute_inner(h: &History, seed_checks: usize, stats: &mut RunStats) -> Optio
                         Err(e) => {
                             return Some(Found {
                                 class: "malformed_semantic_tokens".into(),
-                                sig: format!("malformed_tokens:{}", e.split(' ').skip(2).take(3).collect::<Vec<_>>().join("_")),
-                                message: format!("semantic tokens for {} at event {}: {}", file, i, e),
+                                sig: format!(
+                                    "malformed_tokens:{}",
+                                    e.split(' ').skip(2).take(3).collect::<Vec<_>>().join("_")
+                                ),
+                                message: format!(
+                                    "semantic tokens for {} at event {}: {}",
+                                    file, i, e
+                                ),
                                 at_event: i,
                             })
                         }
@@ -878,7 +1054,9 @@ fn execute_inner(h: &History, seed_checks: usize, stats: &mut RunStats) -> Optio
                     let u = u.unwrap_or_else(|| ru.clone());
                     let verdict = match world.text_of_uri(&u) {
                         Some(t) => range_inside(&t, r),
-                        None => Err("the document does not exist (no buffer, no readable file)".into()),
+                        None => {
+                            Err("the document does not exist (no buffer, no readable file)".into())
+                        }
                     };
                     if let Err(e) = verdict {
                         return Some(Found {
@@ -938,9 +1116,17 @@ fn execute_inner(h: &History, seed_checks: usize, stats: &mut RunStats) -> Optio
                         }
                     }
                 }
-                let class = if seed_dependent { "seed_dependent_answer" } else { "history_dependent_answer" };
+                let class = if seed_dependent {
+                    "seed_dependent_answer"
+                } else {
+                    "history_dependent_answer"
+                };
                 let other = if fresh_disagree {
-                    fresh_answers.iter().find(|a| *a != &fresh_answers[0]).cloned().unwrap()
+                    fresh_answers
+                        .iter()
+                        .find(|a| *a != &fresh_answers[0])
+                        .cloned()
+                        .unwrap()
                 } else {
                     cl.clone()
                 };
@@ -952,8 +1138,14 @@ fn execute_inner(h: &History, seed_checks: usize, stats: &mut RunStats) -> Optio
                         kind,
                         i,
                         file,
-                        match ev { Ev::Req { line, .. } => *line, _ => 0 },
-                        match ev { Ev::Req { col, .. } => *col, _ => 0 },
+                        match ev {
+                            Ev::Req { line, .. } => *line,
+                            _ => 0,
+                        },
+                        match ev {
+                            Ev::Req { col, .. } => *col,
+                            _ => 0,
+                        },
                         class,
                         other,
                         fresh_answers[0]
@@ -1017,7 +1209,13 @@ pub fn gen_history(seed: u64, k: u64, max_events: usize) -> History {
         } else {
             DiskState::Text(rng.pick(vs).to_string())
         };
-        model_disk.insert(f.to_string(), match &st { DiskState::Text(t) => Some(t.clone()), _ => None });
+        model_disk.insert(
+            f.to_string(),
+            match &st {
+                DiskState::Text(t) => Some(t.clone()),
+                _ => None,
+            },
+        );
         disk.insert(f.to_string(), st);
     }
     let toml = match rng.below(10) {
@@ -1048,10 +1246,26 @@ pub fn gen_history(seed: u64, k: u64, max_events: usize) -> History {
     if rng.chance(9, 10) {
         let t = model_disk["main.asm"].clone().unwrap_or_default();
         buffers.insert("main.asm".into(), t.clone());
-        events.push(Ev::Open { file: "main.asm".into(), text: t });
+        events.push(Ev::Open {
+            file: "main.asm".into(),
+            text: t,
+        });
     }
     while events.len() < n_events {
-        let choice = rng.weighted(&[w_req, w_mut, w_var, w_type, w_close, w_open, w_disk, if past_requests.is_empty() { 0 } else { w_repeat }]);
+        let choice = rng.weighted(&[
+            w_req,
+            w_mut,
+            w_var,
+            w_type,
+            w_close,
+            w_open,
+            w_disk,
+            if past_requests.is_empty() {
+                0
+            } else {
+                w_repeat
+            },
+        ]);
         match choice {
             7 => {
                 let e = rng.pick(&past_requests).clone();
@@ -1072,15 +1286,31 @@ pub fn gen_history(seed: u64, k: u64, max_events: usize) -> History {
                 } else {
                     "/elsewhere/x.asm".to_string()
                 };
-                let cur = buffers.get(&file).cloned().or_else(|| model_disk.get(&file).cloned().flatten());
-                let (line, col, pos_kind) = gen_position(&mut rng, cur.as_deref(), old_texts.get(&file).map(|s| s.as_str()));
+                let cur = buffers
+                    .get(&file)
+                    .cloned()
+                    .or_else(|| model_disk.get(&file).cloned().flatten());
+                let (line, col, pos_kind) = gen_position(
+                    &mut rng,
+                    cur.as_deref(),
+                    old_texts.get(&file).map(|s| s.as_str()),
+                );
                 let extra = match kind.as_str() {
-                    "textDocument/rename" => rng.pick(&["renamed", "x", "other_routine", "a.b", "", "super", "1abc"][..]).to_string(),
+                    "textDocument/rename" => rng
+                        .pick(&["renamed", "x", "other_routine", "a.b", "", "super", "1abc"][..])
+                        .to_string(),
                     "workspace/symbol" => rng.pick(&["", "s", "other", "zzz", "é"][..]).to_string(),
                     "textDocument/references" => rng.pick(&["", "nodecl"][..]).to_string(),
                     _ => String::new(),
                 };
-                let e = Ev::Req { kind, file, line, col, extra, pos_kind };
+                let e = Ev::Req {
+                    kind,
+                    file,
+                    line,
+                    col,
+                    extra,
+                    pos_kind,
+                };
                 past_requests.push(e.clone());
                 events.push(e);
             }
@@ -1113,12 +1343,18 @@ pub fn gen_history(seed: u64, k: u64, max_events: usize) -> History {
                         old_texts.insert(file.clone(), buffers[&file].clone());
                         buffers.insert(file.clone(), last.clone());
                     }
-                    events.push(Ev::ChangeN { file: file.clone(), texts });
+                    events.push(Ev::ChangeN {
+                        file: file.clone(),
+                        texts,
+                    });
                 } else {
                     for t in new_texts {
                         old_texts.insert(file.clone(), buffers[&file].clone());
                         buffers.insert(file.clone(), t.clone());
-                        events.push(Ev::Change { file: file.clone(), text: t });
+                        events.push(Ev::Change {
+                            file: file.clone(),
+                            text: t,
+                        });
                     }
                 }
                 if !past_requests.is_empty() && rng.chance(w_repeat, 12) {
@@ -1136,18 +1372,30 @@ pub fn gen_history(seed: u64, k: u64, max_events: usize) -> History {
                 // editors usually save before closing; sometimes they do not - and a document that was never
                 // saved (it exists in the editor only) is more often discarded than not
                 let never_saved = model_disk.get(&file).cloned().flatten().is_none();
-                if rng.chance(if never_saved { 1 } else { 2 }, 3) && !file.starts_with("untitled:") {
+                if rng.chance(if never_saved { 1 } else { 2 }, 3) && !file.starts_with("untitled:")
+                {
                     let t = buffers[&file].clone();
                     model_disk.insert(file.clone(), Some(t.clone()));
-                    events.push(Ev::Disk { file: file.clone(), state: DiskState::Text(t) });
+                    events.push(Ev::Disk {
+                        file: file.clone(),
+                        state: DiskState::Text(t),
+                    });
                 }
                 old_texts.insert(file.clone(), buffers[&file].clone());
                 buffers.remove(&file);
                 events.push(Ev::Close { file });
             }
             5 => {
-                let docs: &[&str] = if rng.chance(1, 3) { lc::DOCS } else { lc::FILES };
-                let closed: Vec<&str> = docs.iter().cloned().filter(|f| !buffers.contains_key(*f)).collect();
+                let docs: &[&str] = if rng.chance(1, 3) {
+                    lc::DOCS
+                } else {
+                    lc::FILES
+                };
+                let closed: Vec<&str> = docs
+                    .iter()
+                    .cloned()
+                    .filter(|f| !buffers.contains_key(*f))
+                    .collect();
                 if closed.is_empty() {
                     continue;
                 }
@@ -1165,7 +1413,11 @@ pub fn gen_history(seed: u64, k: u64, max_events: usize) -> History {
                 if open.is_empty() {
                     continue;
                 }
-                let closed: Vec<&str> = lc::FILES.iter().cloned().filter(|f| !buffers.contains_key(*f)).collect();
+                let closed: Vec<&str> = lc::FILES
+                    .iter()
+                    .cloned()
+                    .filter(|f| !buffers.contains_key(*f))
+                    .collect();
                 if closed.is_empty() {
                     continue;
                 }
@@ -1176,7 +1428,13 @@ pub fn gen_history(seed: u64, k: u64, max_events: usize) -> History {
                     2 => DiskState::InvalidUtf8,
                     _ => DiskState::Text(rng.pick(lc::variants_of(&file)).to_string()),
                 };
-                model_disk.insert(file.clone(), match &state { DiskState::Text(t) => Some(t.clone()), _ => None });
+                model_disk.insert(
+                    file.clone(),
+                    match &state {
+                        DiskState::Text(t) => Some(t.clone()),
+                        _ => None,
+                    },
+                );
                 events.push(Ev::Disk { file, state });
                 let bf = rng.pick(&open).clone();
                 let t = buffers[&bf].clone();
@@ -1237,7 +1495,12 @@ fn run_history(h: &History, seed_checks: usize) -> (Option<Found>, RunStats) {
         Err(p) => (
             Some(Found {
                 class: "harness_panic".into(),
-                sig: format!("harness_panic@{}", p.first().map(|p| short_loc(&p.location)).unwrap_or_default()),
+                sig: format!(
+                    "harness_panic@{}",
+                    p.first()
+                        .map(|p| short_loc(&p.location))
+                        .unwrap_or_default()
+                ),
                 message: format!("panic outside the server under test: {:?}", p.first()),
                 at_event: 0,
             }),
@@ -1285,7 +1548,10 @@ fn run_isolated_history(cli: &Cli, h: &History, seed_checks: usize) -> Option<Fo
         Err(how) => Some(Found {
             class: "process_death".into(),
             sig: format!("process_death:{}", how),
-            message: format!("the server process died ({}) while executing the history", how),
+            message: format!(
+                "the server process died ({}) while executing the history",
+                how
+            ),
             at_event: h.events.len().saturating_sub(1),
         }),
     }
@@ -1299,7 +1565,9 @@ fn minimise(cli: &Cli, h: &History, found: &Found, seed_checks: usize) -> (Histo
     if found.class != "process_death" {
         best.events.truncate(found.at_event + 1);
     }
-    let same = |c: &History| -> bool { matches!(run_isolated_history(cli, c, seed_checks), Some(f) if f.sig == sig) };
+    let same = |c: &History| -> bool {
+        matches!(run_isolated_history(cli, c, seed_checks), Some(f) if f.sig == sig)
+    };
     if !same(&best) {
         return (h.clone(), found.clone());
     }
@@ -1357,7 +1625,19 @@ fn minimise(cli: &Cli, h: &History, found: &Found, seed_checks: usize) -> (Histo
             continue;
         }
         let base = best.clone();
-        let mk = |t: String| if is_open { Ev::Open { file: file.clone(), text: t } } else { Ev::Change { file: file.clone(), text: t } };
+        let mk = |t: String| {
+            if is_open {
+                Ev::Open {
+                    file: file.clone(),
+                    text: t,
+                }
+            } else {
+                Ev::Change {
+                    file: file.clone(),
+                    text: t,
+                }
+            }
+        };
         let kept = ddmin(lines, &mut |ls: &[String]| {
             let mut c = base.clone();
             c.events[idx] = mk(ls.concat());
@@ -1419,7 +1699,13 @@ fn replay(cli: &Cli, path: &Path) -> i32 {
     let f = run_isolated_history(cli, &h, seed_checks);
     let log_hash = rng::fnv64(format!("{:?}", f.as_ref().map(|f| (&f.sig, f.at_event))).as_bytes());
     let r = match f {
-        Some(f) => ReplayResult { violated: true, sig: f.sig, class: f.class, message: f.message, log_hash },
+        Some(f) => ReplayResult {
+            violated: true,
+            sig: f.sig,
+            class: f.class,
+            message: f.message,
+            log_hash,
+        },
         None => ReplayResult {
             violated: false,
             sig: "-".into(),
@@ -1487,7 +1773,10 @@ fn worker(cli: &Cli) -> i32 {
             dg = rng::fnv64_extend(dg, f.sig.as_bytes());
             dg = rng::fnv64_extend(dg, &(f.at_event as u64).to_le_bytes());
         }
-        let nontrivial = found.is_none() && st.buffer_events >= 2 && st.digest_changes >= 2 && st.had_errors_before_request;
+        let nontrivial = found.is_none()
+            && st.buffer_events >= 2
+            && st.digest_changes >= 2
+            && st.had_errors_before_request;
         worker_emit_run(&RunReport {
             k,
             digest: dg,
@@ -1554,7 +1843,10 @@ pub fn main(cli: &Cli) -> i32 {
             // print the generated history of run --from (debugging aid)
             let (_, max_events, seed_checks) = tier_params(cli.tier);
             let h = gen_history(cli.seed, cli.opt_u64("from").unwrap_or(0), max_events);
-            println!("{}", serde_json::to_string_pretty(&case_json(&h, seed_checks)).unwrap());
+            println!(
+                "{}",
+                serde_json::to_string_pretty(&case_json(&h, seed_checks)).unwrap()
+            );
             return EXIT_OK;
         }
         _ => {}
@@ -1579,8 +1871,17 @@ pub fn main(cli: &Cli) -> i32 {
         batch = rng::fnv64_extend(batch, how.as_bytes());
     }
     if determinism {
-        println!("DETERMINISM engine=lspsim runs={} deaths={} batch_hash={:016x}", sup.runs.len(), sup.deaths.len(), batch);
-        return if sup.harness_errors.is_empty() { EXIT_OK } else { EXIT_HARNESS };
+        println!(
+            "DETERMINISM engine=lspsim runs={} deaths={} batch_hash={:016x}",
+            sup.runs.len(),
+            sup.deaths.len(),
+            batch
+        );
+        return if sup.harness_errors.is_empty() {
+            EXIT_OK
+        } else {
+            EXIT_HARNESS
+        };
     }
     // aggregate
     let mut tot: BTreeMap<String, u64> = BTreeMap::new();
@@ -1589,16 +1890,38 @@ pub fn main(cli: &Cli) -> i32 {
     let mut faults = BTreeMap::new();
     let mut max_passes = 0u64;
     for s in &sup.stats {
-        for key in ["runs", "events", "buffer_events", "requests", "fresh_servers", "comparisons", "nonnull_answers", "tokens_checked", "ranges_checked", "codegen_invocations"] {
-            *tot.entry(key.to_string()).or_insert(0) += s.get(key).and_then(|x| x.as_u64()).unwrap_or(0);
+        for key in [
+            "runs",
+            "events",
+            "buffer_events",
+            "requests",
+            "fresh_servers",
+            "comparisons",
+            "nonnull_answers",
+            "tokens_checked",
+            "ranges_checked",
+            "codegen_invocations",
+        ] {
+            *tot.entry(key.to_string()).or_insert(0) +=
+                s.get(key).and_then(|x| x.as_u64()).unwrap_or(0);
         }
         max_passes = max_passes.max(s.get("max_passes").and_then(|x| x.as_u64()).unwrap_or(0));
         add_u64(&mut kinds, s.get("kinds"));
         add_u64(&mut pos_kinds, s.get("pos_kinds"));
         add_u64(&mut faults, s.get("faults"));
     }
-    let traces: BTreeSet<u64> = sup.runs.iter().filter(|r| r.found.is_none()).map(|r| r.trace).collect();
-    let nontrivial: BTreeSet<u64> = sup.runs.iter().filter(|r| r.nontrivial).map(|r| r.trace).collect();
+    let traces: BTreeSet<u64> = sup
+        .runs
+        .iter()
+        .filter(|r| r.found.is_none())
+        .map(|r| r.trace)
+        .collect();
+    let nontrivial: BTreeSet<u64> = sup
+        .runs
+        .iter()
+        .filter(|r| r.nontrivial)
+        .map(|r| r.trace)
+        .collect();
     // violations: first occurrence of each signature, minimised in child processes
     let mut sig_counts: BTreeMap<String, u64> = BTreeMap::new();
     let mut first: BTreeMap<String, (u64, Found)> = BTreeMap::new();
@@ -1613,7 +1936,10 @@ pub fn main(cli: &Cli) -> i32 {
         let f = Found {
             class: "process_death".into(),
             sig: format!("process_death:{}", how),
-            message: format!("the server process died ({}) while executing the history", how),
+            message: format!(
+                "the server process died ({}) while executing the history",
+                how
+            ),
             at_event: h.events.len().saturating_sub(1),
         };
         *sig_counts.entry(f.sig.clone()).or_insert(0) += 1;
@@ -1650,7 +1976,13 @@ pub fn main(cli: &Cli) -> i32 {
                         property: PROP,
                         class: mf.class.clone(),
                         sig: mf.sig.clone(),
-                        message: format!("C14 run {} ({} events, minimised to {}): {}", k, h.events.len(), mh.events.len(), mf.message),
+                        message: format!(
+                            "C14 run {} ({} events, minimised to {}): {}",
+                            k,
+                            h.events.len(),
+                            mh.events.len(),
+                            mf.message
+                        ),
                         run_index: *k,
                         replay,
                     });
@@ -1663,7 +1995,12 @@ pub fn main(cli: &Cli) -> i32 {
 
     // samples: re-execute two clean runs in-process to write them out
     let mut samples = vec![];
-    for r in sup.runs.iter().filter(|r| r.found.is_none() && r.nontrivial).take(2) {
+    for r in sup
+        .runs
+        .iter()
+        .filter(|r| r.found.is_none() && r.nontrivial)
+        .take(2)
+    {
         let h = gen_history(seed, r.k, max_events);
         if let Ok(Some(_)) | Err(_) = run_isolated(cli, &case_json(&h, seed_checks), 120) {
             continue;
@@ -1690,7 +2027,12 @@ pub fn main(cli: &Cli) -> i32 {
     ev.set("fault_kinds_injected", json!(faults));
     ev.set("worker_process_deaths", json!(sup.deaths.len()));
     ev.set("distinct_histories_by_trace", json!(traces.len()));
-    ev.set("interleaving_measure", json!("distinct hashes of (event-kind sequence, per-event publish digest, canonical answers)"));
+    ev.set(
+        "interleaving_measure",
+        json!(
+            "distinct hashes of (event-kind sequence, per-event publish digest, canonical answers)"
+        ),
+    );
     ev.set("violation_signatures_seen_in_batch", json!(sig_counts));
     ev.set("batch_hash", json!(format!("{:016x}", batch)));
     ev.set("simulated_time_ms", json!(0));
